@@ -190,6 +190,64 @@ def ops_catalogue():
     for layout in ("index", "columns", "wide", "sparse"):
         add(f"to_df({layout}) -> from_df(dims=T)", dict(x=("abc", VX), T=("abc", VZ)), df_roundtrip(layout), lambda L: tuple(L["T"]))
 
+    def marker(raised):
+        from flodym import FlodymArray
+
+        return FlodymArray.scalar(1.0 if raised else 0.0)
+
+    def ambiguous_item(P, it):
+        # an item shared by dimensions a and c, addressed without naming a dimension: refused in EVERY storage order
+        from flodym import Dimension, DimensionSet, FlodymArray
+
+        L = P["x"].dims.letters
+        its = {"a": ["a1", "shared"], "b": ["b1", "b2"], "c": ["shared", "c2"]}
+        ds = DimensionSet(dim_list=[Dimension(name=S.NAMES[l], letter=l, items=its[l]) for l in L])
+        X = FlodymArray(dims=ds, values=np.arange(8.0).reshape(2, 2, 2))
+        try:
+            X["shared"]
+            r1 = False
+        except Exception:
+            r1 = True
+        try:
+            X["b1", "shared"] = 1.0
+            r2 = False
+        except Exception:
+            r2 = True
+        return marker(r1 and r2)
+
+    add("x['shared'] (item in two dims) is refused", dict(x=("abc", VX)), ambiguous_item, lambda L: ())
+
+    def lacking_rhs(P, it):
+        # a right-hand side lacking a dimension of the target is refused whatever the target's storage order
+        t = P["t"].copy()
+        out = []
+        for key in (Ellipsis, {"a": it["a"][0]}):
+            try:
+                t[key] = P["r"]
+                out.append(False)
+            except Exception:
+                out.append(True)
+        return marker(all(out))
+
+    add("t[...] = r lacking a dim is refused", dict(t=("abc", VZ), r=("c", VX)), lacking_rhs, lambda L: ())
+    add("t[...] = r lacking two dims is refused", dict(t=("abcd", VZ), r=("db", VX)), lacking_rhs, lambda L: ())
+
+    def nested_frame(P, it):
+        # two dimensions with NESTED item sets, columns identified only through their items, both allow_* flags
+        from flodym import Dimension, DimensionSet, FlodymArray
+
+        L = P["T"].dims.letters
+        its = {"a": [2000, 2001, 2002, 2003], "b": [2000, 2001], "c": ["c1", "c2"]}
+        nm = {"a": "Alpha", "b": "Beta", "c": "Gamma"}
+        base = DimensionSet(dim_list=[Dimension(name=nm[l], letter=l, items=its[l]) for l in "abc"])
+        v = np.arange(16.0).reshape(4, 2, 2) * 3.0 + 1.0
+        df = FlodymArray(dims=base, values=v).to_df(index=False)
+        df.columns = ["k0", "k1", "k2", "value"]
+        tgt = DimensionSet(dim_list=[Dimension(name=nm[l], letter=l, items=its[l]) for l in L])
+        return FlodymArray.from_df(dims=tgt, df=df, allow_missing_values=True, allow_extra_values=True)
+
+    add("from_df(items-only, nested item sets, both flags)", dict(T=("abc", VZ)), nested_frame, lambda L: tuple(L["T"]))
+
     def stack(P, it):
         from flodym.flodym_array_helper import flodym_array_stack
 
